@@ -469,6 +469,21 @@ impl<'tcx> Dumper<'tcx> {
             "args",
             J::Arr(args.iter().map(|a| J::s(&format!("{}", a))).collect()),
         );
+        {
+            let mut cl: Vec<String> = Vec::new();
+            for a in args.iter() {
+                if let Some(t) = a.as_type() {
+                    for c in self.closures_in(t) {
+                        if !cl.contains(&c) {
+                            cl.push(c);
+                        }
+                    }
+                }
+            }
+            if !cl.is_empty() {
+                o.set("arg_cl", J::Arr(cl.iter().map(|c| J::s(c)).collect()));
+            }
+        }
         // trait method?
         if let Some(assoc) = tcx.opt_associated_item(did) {
             let container = tcx.parent(did);
@@ -614,6 +629,25 @@ impl<'tcx> Dumper<'tcx> {
         }
         out.sort();
         out.dedup();
+        out
+    }
+
+
+    fn closures_in(&self, t: Ty<'tcx>) -> Vec<String> {
+        let mut out = Vec::new();
+        for inner in t.walk() {
+            if let Some(t) = inner.as_type() {
+                match t.kind() {
+                    TyKind::Closure(d, _) | TyKind::Coroutine(d, _) | TyKind::CoroutineClosure(d, _) => {
+                        let s = uniq_path(self.tcx, *d);
+                        if !out.contains(&s) {
+                            out.push(s);
+                        }
+                    }
+                    _ => {}
+                }
+            }
+        }
         out
     }
 
@@ -775,6 +809,10 @@ impl<'tcx> Dumper<'tcx> {
         for (i, ld) in body.local_decls.iter_enumerated() {
             let mut o = J::obj();
             o.set("ty", J::s(&self.ty_s(ld.ty)));
+            let cl = self.closures_in(ld.ty);
+            if !cl.is_empty() {
+                o.set("cl", J::Arr(cl.iter().map(|c| J::s(c)).collect()));
+            }
             if let Some(n) = &names[i.as_usize()] {
                 o.set("name", J::s(n));
             }
@@ -925,7 +963,12 @@ impl<'tcx> Dumper<'tcx> {
                 t.set("src", J::s(&self.snippet(term.source_info.span)));
                 // callee type for indirect calls
                 if !matches!(func, Operand::Constant(_)) {
-                    t.set("fn_ty", J::s(&self.ty_s(func.ty(body, tcx))));
+                    let fty = func.ty(body, tcx);
+                    t.set("fn_ty", J::s(&self.ty_s(fty)));
+                    let cl = self.closures_in(fty);
+                    if !cl.is_empty() {
+                        t.set("fn_cl", J::Arr(cl.iter().map(|c| J::s(c)).collect()));
+                    }
                 }
             }
             TerminatorKind::TailCall { func, args, .. } => {
